@@ -368,8 +368,8 @@ func (d *Datastore) Subscribe(req *sdcpb.SubscribeRequest, stream sdcpb.DataServ
 	// start periodic gets, TODO: optimize using cache RPC
 	wg := new(sync.WaitGroup)
 	wg.Add(len(req.GetSubscription()))
-	errCh := make(chan error, 1)
-	doneCh := make(chan struct{})
+	// every goroutine reports at most one error, so none of them ever blocks on the channel
+	errCh := make(chan error, len(req.GetSubscription()))
 	for _, subsc := range req.GetSubscription() {
 		go func(subsc *sdcpb.Subscription) {
 			ticker := time.NewTicker(time.Duration(subsc.GetSampleInterval()))
@@ -377,16 +377,14 @@ func (d *Datastore) Subscribe(req *sdcpb.SubscribeRequest, stream sdcpb.DataServ
 			defer wg.Done()
 			for {
 				select {
-				case <-doneCh:
-					return
 				case <-ctx.Done():
-					errCh <- ctx.Err()
 					return
 				case <-ticker.C:
 					err := d.doSubscribeOnce(ctx, subsc, stream)
 					if err != nil {
 						errCh <- err
-						close(doneCh)
+						// stop the other subscriptions of the request
+						cancel()
 						return
 					}
 				}
@@ -394,6 +392,11 @@ func (d *Datastore) Subscribe(req *sdcpb.SubscribeRequest, stream sdcpb.DataServ
 		}(subsc)
 	}
 	wg.Wait()
+	select {
+	case err = <-errCh:
+		return err
+	default:
+	}
 	return nil
 }
 
